@@ -13,7 +13,7 @@ NS = "Zeep.C11."
 THEOREMS = [NS + t for t in (
     "int_rt", "int_variants", "tz_roundtrip", "tz_variants", "gyear_rt", "gyearmonth_rt", "gmonth_rt", "gday_rt",
     "gmonthday_rt", "gmonth_two_digits", "bool_rt", "bool_variants", "token_rt", "normalized_rt", "string_rt",
-    "base64_rt", "floatspecial_rt", "c11_table_covered", "c11_table_facets",
+    "base64_rt", "base64_lenient_rt", "base64_variants", "floatspecial_rt", "c11_table_covered", "c11_table_facets",
 )]
 LEVEL = "proof"
 MANIFEST = dict(
@@ -193,8 +193,16 @@ class Cases:
             yield "ENTITIES", nm + " x" + nm, ("collapse", nm + " x" + nm), []
             hx = "".join(rng.choice("0123456789ABCDEFabcdef") for _ in range(2 * rng.randrange(0, 6)))
             yield "hexBinary", hx, ("preserve", hx), []
-            bs = bytes(rng.randrange(256) for _ in range(rng.choice([0, 1, 2, 3, 4, 5, 31, 64])))
-            yield "base64Binary", bs, ("base64", list(bs)), []
+            bs = bytes(rng.randrange(256) for _ in range(rng.choice([0, 1, 2, 3, 4, 5, 31, 57, 58, 64, 200])))
+            import base64 as _b64
+            enc = _b64.b64encode(bs).decode()
+            var = []
+            if enc:
+                # legal lexical variants a peer may send: MIME line wrapping, space-separated groups, white space around
+                var = [("\n".join(enc[i:i + 76] for i in range(0, len(enc), 76)) + "\n", True),
+                       (" ".join(enc[i:i + 4] for i in range(0, len(enc), 4)), True),
+                       ("\n  " + enc[:len(enc) // 2] + "\n  " + enc[len(enc) // 2:] + "\n", True)]
+            yield "base64Binary", bs, ("base64", list(bs)), var
         # --- decimals, floats (hypothesis codecs; judged by libxml2 and read-back)
         for _ in range(N):
             digits = "".join(rng.choice("0123456789") for _ in range(rng.randrange(1, 40)))
